@@ -38,7 +38,7 @@ static void gen_srv_base(int n)
   }
 }
 
-enum { MOOD_GOOD = 0, MOOD_FLAKY, MOOD_SILENT, MOOD_ERR, MOOD_HOSTILE, MOOD_TC, MOOD_FORMERR, MOOD_NEG, MOOD_RESET, MOOD__COUNT };
+enum { MOOD_GOOD = 0, MOOD_FLAKY, MOOD_SILENT, MOOD_ERR, MOOD_HOSTILE, MOOD_TC, MOOD_FORMERR, MOOD_NEG, MOOD_RESET, MOOD_BADCOOKIE, MOOD__COUNT };
 
 static void gen_srv_mood(vsrv_t *s, int mood, vh_rng_t *rng)
 {
@@ -119,6 +119,15 @@ static void gen_srv_mood(vsrv_t *s, int mood, vh_rng_t *rng)
       s->w_tcp[SA_NXDOMAIN]       = 40;
       s->w_tcp[SA_NODATA]         = 30;
       s->w_tcp[SA_ANSWER]         = 30;
+      break;
+    case MOOD_BADCOOKIE:
+      s->w_udp[SA_BADCOOKIE] = 85;
+      s->w_udp[SA_ANSWER]    = 10;
+      s->w_udp[SA_SILENT]    = 5;
+      s->w_tcp[SA_ANSWER]    = 60;
+      s->w_tcp[SA_SILENT]    = 20;
+      s->w_tcp[SA_CLOSE]     = 20;
+      s->ck_mode             = 1 + (int)vh_below(rng, 2);
       break;
     case MOOD_RESET:
     default:
@@ -434,7 +443,9 @@ static void gen_hostile(vh_rng_t *rng)
     s->delay_max_ms         = (int)vh_below(rng, 60);
     s->default_nrec         = vh_chance(rng, 1, 6) ? vh_range(rng, 2, 30) : 1;
     s->default_ttl          = (uint32_t)vh_below(rng, 600);
-    s->ck_mode              = vh_chance(rng, 1, 2);
+    if (s->w_udp[SA_BADCOOKIE] < 50) {
+      s->ck_mode = (int)vh_below(rng, 3);
+    }
     memset(s->ck_secret, 0x40 + i, 8);
   }
   /* channel options */
@@ -493,6 +504,7 @@ static void gen_hostile(vh_rng_t *rng)
     snprintf(app_cfg.sortlist, sizeof(app_cfg.sortlist), "10.0.0.0/8 fd5e::/16");
   }
   app_cfg.use_server_state_cb = vh_chance(rng, 1, 2);
+  app_cfg.local_bind          = vh_chance(rng, 1, 5);
   if (vh_chance(rng, 1, 6)) {
     snprintf(app_cfg.hostaliases_content, sizeof(app_cfg.hostaliases_content), "alias0 t0.example.com\nalias1 realname.sub.test\n");
   }
